@@ -447,6 +447,10 @@ where
         Pfs::new(self)
     }
 
+    pub(crate) fn out_len(&self) -> usize {
+        self.inner.2.read().unwrap().len_outbound()
+    }
+
     /// Returns an iterator over the node's adjacent edges.
     pub fn iter(&self) -> NodeIterator<K, N, E> {
         NodeIterator {
